@@ -169,10 +169,14 @@ def _esc(s, attr=False):
     return s
 
 
-def write_tree(tree):
+def write_tree(tree, xsd_prefix=None):
     """Independent writer: all namespaces declared on the root with generated prefixes; character data of an
-    element is written before its children (positions of text between children are not kept)."""
+    element is written before its children (positions of text between children are not kept).
+    `xsd_prefix`: the prefix to bind the XML Schema namespace to ("" = make it the default namespace, so that the
+    QName in xsi:type is written without prefix)."""
     nsp = {"http://www.w3.org/XML/1998/namespace": "xml"}
+    if xsd_prefix is not None:
+        nsp[XS] = xsd_prefix
 
     def collect(n):
         for u in [n[0]] + [a[0] for a in n[2]]:
@@ -196,12 +200,14 @@ def write_tree(tree):
         out.append("<" + name(n[0], n[1]))
         if top:
             for u, pf in nsp.items():
-                if pf != "xml":
+                if pf == "":
+                    out.append(' xmlns="%s"' % _esc(u, True))
+                elif pf != "xml":
                     out.append(' xmlns:%s="%s"' % (pf, _esc(u, True)))
         for ans, al, v in n[2]:
             if ans == XSI and al == "type" and v.startswith("{"):
                 u, l = v[1:].split("}", 1)
-                v = "%s:%s" % (nsp[u], l) if u in nsp else "%s:%s" % (u.lstrip("?") or "undeclared", l)
+                v = (("%s:%s" % (nsp[u], l)) if nsp[u] else l) if u in nsp else "%s:%s" % (u.lstrip("?") or "undeclared", l)
             out.append(' %s="%s"' % (name(ans, al), _esc(v, True)))
         out.append(">")
         out.append(_esc(n[3]))
@@ -1178,6 +1184,28 @@ def _an_assertion(sign=False):
     return r.assertion
 
 
+def _received_assertion(prefix):
+    """An assertion as RECEIVED from a peer: produced by the default IdP with typed attribute values, written by the
+    harness's own writer with the XML Schema namespace bound to `prefix` ("xs", "xsd", any other, or "" = default
+    namespace), checked to be schema-valid as received, then parsed by the library."""
+    from saml2 import saml
+
+    idp = peer("idp")
+    ident = {"givenName": ["A", "B"], "uid": [5], "title": [True]}
+    if prefix.endswith("+empty"):  # ... with an empty (typed, text-less) value among them
+        prefix = prefix[:-6]
+        ident["displayName"] = [""]
+    with S.clock(S.NOW0):
+        r = idp.create_authn_response(ident, "id-rcv-1", S.SP_ACS_POST, S.SP_ID,
+                                      name_id=saml.NameID(text="subject-1", format=NAMEID_FORMATS[1]), authn={"class_ref": ACCR[0], "authn_auth": S.IDP_ID},
+                                      sign_response=False, sign_assertion=False)
+    xml = write_tree(xml_to_tree(str(r.assertion)), xsd_prefix=prefix)
+    ok, err = xsd_check(xml)
+    if not ok:
+        raise RuntimeError("harness: the received assertion is not valid: " + err)
+    return saml.assertion_from_string(xml)
+
+
 def call_authz_decision_query(sp, a):
     from saml2 import saml
 
@@ -1186,11 +1214,13 @@ def call_authz_decision_query(sp, a):
         kw["message_id"] = a["message_id"]
     if "extensions" in a:
         kw["extensions"] = mk_extensions(a["extensions"])
-    if a.get("evidence"):
+    if isinstance(a.get("evidence"), dict):
+        kw["evidence"] = saml.Evidence(assertion=[_received_assertion(a["evidence"]["prefix"])])
+    elif a.get("evidence"):
         kw["evidence"] = saml.Evidence(assertion_id_ref=[saml.AssertionIDRef(text="id-ev1")], assertion=_an_assertion())
     actions = [saml.Action(text=t, namespace=ns) for t, ns in a["action"]]
     if a["via_assertion"]:
-        ass = _an_assertion()
+        ass = _received_assertion(a["received"]) if "received" in a else _an_assertion()
         return sp.create_authz_decision_query_using_assertion(a["destination"], ass, action=[t for t, _ in a["action"]], resource=a["resource"],
                                                               subject=mk_subject(a["subject"]), **kw)[1]
     return sp.create_authz_decision_query(a["destination"], actions, resource=a["resource"], subject=mk_subject(a["subject"]), **kw)[1]
@@ -1233,6 +1263,10 @@ def call_artifact_response(ent, a):
         msg = peer("sp").create_authn_request(S.IDP_SSO_POST, sign=False)[1]
     elif a["message"] == "logout_request":
         msg = peer("sp").create_logout_request(S.IDP_SLO_POST, S.IDP_ID, name_id=saml.NameID(text="subject-1"), sign=False)[1]
+    elif a["message"].startswith("received:"):
+        msg = samlp.Response(id="id-rcv-r1", version="2.0", issue_instant=S.fmt_time(S.NOW0), issuer=saml.Issuer(text=S.IDP_ID),
+                             status=samlp.Status(status_code=samlp.StatusCode(value="urn:oasis:names:tc:SAML:2.0:status:Success")),
+                             assertion=[_received_assertion(a["message"].split(":", 1)[1])])
     else:
         msg = peer("idp").create_error_response("id-1", S.SP_ACS_POST, ("urn:oasis:names:tc:SAML:2.0:status:AuthnFailed", "no"), sign=False)
     art = ent.use_artifact(msg)
@@ -1271,6 +1305,8 @@ def ga_authn_response(rng, cfg):
         a["authn"] = {"decl": "<x/>", "authn_auth": S.IDP_ID} if False else {"class_ref": rng.choice(ACCR), "authn_auth": S.IDP_ID, "authn_instant": S.NOW0 - 30}
     else:
         a["authn"] = {"class_ref": rng.choice(ACCR), "authn_auth": S.IDP_ID}
+    if a["authn"] and rng.random() < 0.2:
+        a["authn"]["subject_locality"] = rng.choice(["192.0.2.7", {"address": "198.51.100.23"}, "2001:db8::7"])  # DNSName: see K_DNS
     for k in ("sign_response", "sign_assertion", "encrypt_assertion", "encrypted_advice_attributes", "pefim"):
         if rng.random() < 0.3:
             a[k] = rng.choice([True, False])
@@ -1617,6 +1653,9 @@ BUILDERS = {
 K_NIM_STATUS = "C13/name-id-mapping-response-without-status"
 K_PEFIM_NOCERT = "C13/pefim-without-encryption-certificate-advice-in-clear"
 K_EP_STRING = "C13/required-endpoint-as-string-without-default-binding-dropped"
+K_SUBJLOC = "C13/subject-locality-written-as-element-text"
+K_REEMIT = "C13/reemitted-attribute-value-loses-xsd-prefix-binding"
+K_DNS = "C13/valid-domain-name-rejects-every-name"
 _recorded = []
 
 
@@ -1646,6 +1685,8 @@ def is_strict(case):
       an abstract type and no concrete extension type exists in the shipped schemas, so no such call can validate."""
     b = case["builder"]
     strict = BUILDERS[b][1]
+    if case.get("unconstrained"):
+        return False
     if case.get("pending") and not _finding_recorded(case["pending"]):
         # a grid case that shows a defect of the unchanged code which is reported but not yet recorded in
         # KNOWN_FINDINGS.jsonl: constrained as soon as the record (known or fixed) exists
@@ -1711,12 +1752,23 @@ def vi_check(obj):
         if e.args and e.args[0] == "{%s}nil" % XSI:
             return False, "KeyError: xsi:nil (AttributeValueBase.verify)"
         raise
+    except ValueError as e:
+        # SubjectLocality.verify -> validate.valid_domain_name raises a bare ValueError: instance validation does not pass
+        if str(e) == "Not a proper domain name":
+            return False, "ValueError: Not a proper domain name (valid_domain_name)"
+        raise
 
 
 def run_doc(case):
     import saml2
     from saml2.s_utils import UnsupportedBinding, UnknownSystemEntity
 
+    if case.get("lenient"):
+        # falsy-form grid: a configuration value None / "" / [] / {} / 0 may be refused in whatever way the code refuses it
+        try:
+            return run_call(instance(case["cfg"]), case["builder"], case["args"], is_strict(case), None)
+        except (TypeError, ValueError, AttributeError, KeyError, IndexError) as e:
+            return {"refused": "crash:" + type(e).__name__}
     return run_call(instance(case["cfg"]), case["builder"], case["args"], is_strict(case), case.get("mut"))
 
 
@@ -1825,6 +1877,14 @@ def run_lex(case):
     import saml2.xml.schema as sx
 
     name = case["type"]
+    if name == "pysaml2:valid_domain_name":
+        from saml2.validate import valid_domain_name
+
+        try:
+            valid_domain_name(case["value"])
+            return {"ok": True}
+        except ValueError:
+            return {"ok": False}
     if name not in _xs_types:
         _xs_types[name] = sx._schema_validator_default.maps.types[name]
     return {"ok": bool(_xs_types[name].is_valid(case["value"]))}
@@ -1957,6 +2017,15 @@ def run_impl(case):
     raise ValueError(op)
 
 
+def _docwide_prefix_laxity(impl, lean_valid):
+    """xmlschema resolves the prefix of an xsi:type QName against a document-wide prefix map: a prefix that is bound on
+    SOME element of the document is accepted also where it is not in scope.  The harness resolves QNames with proper
+    scoping (unresolved ones are marked `{?prefix}`), the Lean validator rejects them.  Not a disagreement about XSD."""
+    if lean_valid is not False or not impl.get("xsd") or not impl.get("tree"):
+        return False
+    return any(a[0] == XSI and a[1] == "type" and a[2].startswith("{?") for n, _ in all_nodes(impl["tree"]) for a in n[2])
+
+
 def compare(case, impl, model):
     if model is None:
         return False
@@ -1964,7 +2033,7 @@ def compare(case, impl, model):
     if op == "doc":
         if "refused" in impl:
             return model.get("valid") is None
-        return model.get("valid") == impl["xsd"]
+        return model.get("valid") == impl["xsd"] or _docwide_prefix_laxity(impl, model.get("valid"))
     if op == "lex":
         return model.get("ok") == impl["ok"]
     if op == "hist":
@@ -2093,7 +2162,41 @@ def _repair_ep_string(case, t):
     return t if done else None
 
 
-REPAIRS = [(K_PEFIM_NOCERT, _repair_pefim_nocert), (K_EP_STRING, _repair_ep_string), (K_NIM_STATUS, _repair_nim_status), (K_AA, _repair_aa), (K_DUP_ID, _repair_dup_id), (K_EIDAS_NF, _repair_eidas_nf), (K_ACTION_NS, _repair_action_ns), (K_PEFIM, _repair_pefim)]
+def _repair_subjloc(case, t):
+    if not (case["builder"] == "authn_response" and (case["args"].get("authn") or {}).get("subject_locality")):
+        return None
+    hit = [n for n, _ in all_nodes(t) if n[0] == SAML and n[1] == "SubjectLocality" and n[3]]
+    for n in hit:
+        n[2].append(["", "Address", n[3]])
+        n[3] = ""
+    return t if hit else None
+
+
+def _repair_reemit(case, t):
+    a = case["args"]
+    pf = (a.get("evidence") or {}).get("prefix") if isinstance(a.get("evidence"), dict) else a.get("received")
+    if pf is None and str(a.get("message", "")).startswith("received:"):
+        pf = a["message"].split(":", 1)[1]
+    if pf is None:
+        return None
+    # the class: a RE-EMITTED saml:AttributeValue keeps the xsi:type QName of the received element but not the binding of
+    # its prefix.  Two forms, one root cause (the binding is re-created by set_type only, for `xs`/`xsd`, on the text path):
+    #   (i) the peer's prefix is neither xs nor xsd;  (ii) an empty typed value (re-emitted with xsi:nil, any prefix).
+    # A non-empty value typed with xs: / xsd: that loses its binding is NOT this class (that would be a regression).
+    hit = False
+    for n, _ in all_nodes(t):
+        if not (n[0] == SAML and n[1] == "AttributeValue"):
+            continue
+        for at in n[2]:
+            if at[0] == XSI and at[1] == "type" and at[2].startswith("{?"):
+                prefix = at[2][2:].split("}", 1)[0]
+                if prefix not in ("xs", "xsd") or (not n[3] and not n[4]):
+                    at[2] = "{%s}%s" % (XS, at[2].split("}", 1)[1])
+                    hit = True
+    return t if hit else None
+
+
+REPAIRS = [(K_SUBJLOC, _repair_subjloc), (K_REEMIT, _repair_reemit), (K_PEFIM_NOCERT, _repair_pefim_nocert), (K_EP_STRING, _repair_ep_string), (K_NIM_STATUS, _repair_nim_status), (K_AA, _repair_aa), (K_DUP_ID, _repair_dup_id), (K_EIDAS_NF, _repair_eidas_nf), (K_ACTION_NS, _repair_action_ns), (K_PEFIM, _repair_pefim)]
 
 
 def _empty_typed_value(t):
@@ -2117,6 +2220,9 @@ def finding_key(case, impl, lean):
     if impl["xsd"] and (lean.get("model") or {}).get("valid"):
         if not impl["vi"] and impl["vi_err"].startswith("KeyError: xsi:nil") and _empty_typed_value(tree):
             return K_NIL_VI
+        if not impl["vi"] and impl["vi_err"].startswith("ValueError: Not a proper domain name") and \
+                any(n[1] == "SubjectLocality" and _has_attr(n, "DNSName") for n, _ in all_nodes(tree)):
+            return K_DNS
         return None
     for key, repair in REPAIRS:
         t2 = repair(case, copy.deepcopy(tree))
@@ -2202,6 +2308,33 @@ def lex_cases(rng, n_random):
             if numeric and ("_" in v or (ty == "decimal" and any(ch in v.strip() for ch in " \t\n"))):
                 continue
             yield {"op": "lex", "type": "{%s}%s" % (XS, ty), "value": v}
+
+
+DNS_SEEDS = ["example.org", "host.example.org", "localhost", "a", "a-b.example.org", "xn--bcher-kva.example", "EXAMPLE.Org", "example.org:8080",
+             "example.org:123456", "example.org:", "example.org:80a", ":80", "-example.org", "example-.org", "example..org", ".example.org", "example.org.",
+             "example.org/", "exa mple.org", " example.org", "example.org ", "example.org\n", "example.org\n\n", "\nexample.org", "", ".", "-", "a.b.c.d.e.f",
+             "1.2.3.4", "192.0.2.7:443", "exam_ple.org", "b\u00fccher.example", "\u212a.example", "lon\u017f.example", "a--b.example", "a.-b.example",
+             "example.org:0", "example.org:00000", "example.org:1:2", "2001:db8::1", "[2001:db8::1]", "example.org:\u0663", "\u0663.example"]
+
+
+def dns_cases(rng, n_random):
+    """saml2.validate.valid_domain_name (behind valid_instance for SubjectLocality/@DNSName) vs Lex.domainNameOk"""
+    vals = list(DNS_SEEDS)
+    for _ in range(n_random):
+        v = rng.choice(DNS_SEEDS)
+        c = rng.randrange(4)
+        if c == 0 and v:
+            i = rng.randrange(len(v))
+            v = v[:i] + v[i + 1:]
+        elif c == 1:
+            i = rng.randrange(len(v) + 1)
+            v = v[:i] + rng.choice("-.:aZ09 /_\n") + v[i:]
+        elif c == 2 and v:
+            i = rng.randrange(len(v))
+            v = v[:i] + rng.choice("-.:aZ09") + v[i + 1:]
+        vals.append(v)
+    for v in vals:
+        yield {"op": "lex", "type": "pysaml2:valid_domain_name", "value": v}
 
 
 def order_cases(rng, n_random):
@@ -2697,7 +2830,127 @@ def hist_cases(rng, n_random):
         yield {"op": "hist", "side": side, "init": init, "steps": steps, "top": top}
 
 
+TYPED_SPECS = [["Derek", "xs:string"], ["Derek", "xsd:string"], [["a", "b"], "xsd:string"], ["5", "xs:integer"], [5, "xsd:integer"],
+               ["true", "xs:boolean"], ["true", "xsd:boolean"], ["QUJD", "xs:base64Binary"], ["QUJD", "xsd:base64Binary"],
+               ["2026-01-01", "xsd:date"], ["2026-01-01", "xs:date"], ["1.5", "xsd:float"], ["v", "xs:anyType"], ["v", "xsd:anyType"],
+               ["7", "xsd:short"], ["7", "xs:long"], ["text", None], [None, None]]
+
+
+def typed_grid():
+    """Typed attribute values: (value, type) specs with both customary prefixes of the XML Schema namespace in every
+    builder that takes attribute specs, and re-emission of RECEIVED assertions whose xsi:type QNames use the prefix xs,
+    xsd, another prefix, or the default namespace (as Evidence, through create_authz_decision_query_using_assertion, and
+    as the message behind an artifact)."""
+    sp0 = {"role": "sp", "svc": {}, "top": {}}
+    idp0 = {"role": "idp", "svc": {}, "top": {}}
+    nid = {"text": "subject-1", "format": NAMEID_FORMATS[1]}
+    for i, (v, ty) in enumerate(TYPED_SPECS):
+        spec = v if ty is None else [v, ty]
+        for key in ("urn:oid:2.5.4.42", ["urn:oid:2.5.4.4", "urn:oasis:names:tc:SAML:2.0:attrname-format:uri", "sn"]):
+            yield {"op": "doc", "builder": "attribute_query", "cfg": sp0, "args": {
+                "destination": "https://idp.verif.example/aa", "name_id": nid, "attribute": [[key, spec]], "sign": bool(i % 2)}}
+    yield {"op": "doc", "builder": "attribute_query", "cfg": sp0, "args": {
+        "destination": "https://idp.verif.example/aa", "name_id": nid, "sign": False,
+        "attribute": [["urn:x:a%d" % i, (v if ty is None else [v, ty])] for i, (v, ty) in enumerate(TYPED_SPECS)]}}
+    for pf in ("xs", "xsd", "", "x", "xsdx", "xs+empty", "xsd+empty"):
+        pend = {} if pf in ("xs", "xsd", "") else {"pending": K_REEMIT}
+        for sign in (False, True):
+            yield dict({"op": "doc", "builder": "authz_decision_query", "cfg": sp0, "args": {
+                "destination": "https://idp.verif.example/pdp", "action": [["read", "urn:oasis:names:tc:SAML:1.0:action:rwedc"]], "resource": "urn:r",
+                "subject": nid, "via_assertion": False, "evidence": {"prefix": pf}, "sign": sign}}, **pend)
+        for cfg in (sp0, idp0):
+            yield dict({"op": "doc", "builder": "artifact_response", "cfg": cfg, "args": {
+                "request_id": "id-q2", "bindings": [S.BINDING_SOAP], "message": "received:" + pf, "sign": False}}, **pend)
+    for sl in ("192.0.2.7", "2001:db8::1", {"address": "192.0.2.7"}, {"dns_name": "host.example.org"},
+               {"address": "192.0.2.7", "dns_name": "host.example.org"}, {"address": "2001:db8::1", "dns_name": ""}):
+        yield {"op": "doc", "builder": "authn_response", "cfg": idp0, "pending": K_DNS if isinstance(sl, dict) and sl.get("dns_name") else K_SUBJLOC, "args": {
+            "identity": {"mail": ["a@example.org"]}, "in_response_to": "id-sl1", "destination": S.SP_ACS_POST, "sp_entity_id": S.SP_ID, "name_id": nid,
+            "authn": {"class_ref": ACCR[0], "subject_locality": sl}}}
+
+
+FALSY = [None, "", [], {}, 0]
+
+
+def _falsy_outside(label):
+    """(key, form) combinations for which the unchanged code neither treats the value as unset nor refuses it, judged to be
+    values of the wrong type for the option (outside 'valid configuration'); everything else in the grid is constrained."""
+    key, form = label[len("falsy:"):].rsplit("=", 1)
+    if key in ("sp.authn_requests_signed", "sp.want_assertions_signed", "idp.want_authn_requests_signed") and form in ('""', "[]", "{}"):
+        return "a boolean option given as an empty string / list / dictionary is written out as it is"
+    if key == "contact_person.contact_type" and form == "0":
+        return "contact type 0 is not one of the five contact types"
+    if key == "organization" and form in ('""', "[]", "{}"):
+        return "an empty organization (not None) is an organization lacking its three mandatory parts"
+    if key.startswith("entity_attributes.") and form == "0" and key != "entity_attributes.values":
+        return "a number where a name / format string is expected cannot be serialised"
+    if key == "entity_attributes.name" and form == "null":
+        return "an entity attribute needs a name"
+    return None
+
+
+def falsy_grid():
+    """Every configuration key of the value-forms grid PRESENT with None, "", [], {} and 0 (next to absent, which the other
+    grids have): where the code treats the value as unset the metadata must validate, where it refuses, a refusal is fine."""
+    def md(service, top, label):
+        t = {"with_keys": "none", "no_xmlsec": True}
+        t.update(top)
+        return {"op": "doc", "builder": "entity_descriptor", "cfg": {"role": "md", "service": service, "top": t}, "args": {"sign": False},
+                "lenient": True, "grid": label}
+
+    def sp(extra=None):
+        d = {"endpoints": {"assertion_consumer_service": [[S.SP_ACS_POST, S.BINDING_POST]]}}
+        d.update(extra or {})
+        return {"sp": d}
+
+    def idp(extra=None):
+        d = {"endpoints": {"single_sign_on_service": [[S.IDP_SSO_POST, S.BINDING_POST]]}}
+        d.update(extra or {})
+        return {"idp": d}
+
+    full_contact = {"contact_type": "support", "given_name": "G", "sur_name": "S", "company": "C", "email_address": ["mailto:a@e.example"], "telephone_number": ["+1"]}
+    full_org = {"name": "N", "display_name": "D", "url": "http://e.example"}
+    full_ea = {"format": "urn:oasis:names:tc:SAML:2.0:attrname-format:uri", "name": "urn:x:a", "friendly_name": "a", "values": ["v"]}
+    full_ui = {"display_name": "E", "description": "d", "information_url": "http://e.example/i", "privacy_statement_url": "http://e.example/p",
+               "logo": {"height": "1", "width": "2", "text": "http://e.example/l.png"}, "keywords": {"lang": "en", "text": ["a"]}}
+    for f in FALSY:
+        tag = json.dumps(f)
+        for k in ("name", "description", "organization", "contact_person", "entity_category", "entity_category_support", "assurance_certification",
+                  "entity_attributes", "valid_for", "extensions", "additional_cert_files"):
+            yield md(sp(), {k: f}, "falsy:%s=%s" % (k, tag))
+        for k in ("name_id_format", "required_attributes", "optional_attributes", "authn_requests_signed", "want_assertions_signed", "ui_info",
+                  "discovery_response", "sp_type", "sp_type_in_metadata", "requested_attribute_name_format", "extensions"):
+            yield md(sp({k: f}), {}, "falsy:sp.%s=%s" % (k, tag))
+        for k in ("scope", "want_authn_requests_signed", "name_id_format", "error_url", "ui_info", "extensions"):
+            yield md(idp({k: f}), {}, "falsy:idp.%s=%s" % (k, tag))
+        for svc in ("single_logout_service", "manage_name_id_service", "artifact_resolution_service"):
+            e = sp()
+            e["sp"]["endpoints"][svc] = f
+            yield md(e, {}, "falsy:sp.endpoints.%s=%s" % (svc, tag))
+        for k in full_contact:
+            yield md(sp(), {"contact_person": [dict(full_contact, **{k: f})]}, "falsy:contact_person.%s=%s" % (k, tag))
+        for k in full_ea:
+            yield md(sp(), {"entity_attributes": [dict(full_ea, **{k: f})]}, "falsy:entity_attributes.%s=%s" % (k, tag))
+        for k in full_ui:
+            yield md(sp({"ui_info": dict(full_ui, **{k: f})}), {}, "falsy:ui_info.%s=%s" % (k, tag))
+        for k in full_org:
+            c = md(sp(), {"organization": dict(full_org, **{k: f})}, "falsy:organization.%s=%s" % (k, tag))
+            c["unconstrained"] = "an organization lacking one of its three mandatory parts is outside 'valid configuration'"
+            yield c
+
+
+def falsy_cases():
+    for c in falsy_grid():
+        why = _falsy_outside(c["grid"])
+        if why and "unconstrained" not in c:
+            c["unconstrained"] = why
+        yield c
+
+
 def gen_cases(rng, tier):
+    for c in typed_grid():
+        yield c
+    for c in falsy_cases():
+        yield c
     for c in hist_cases(rng, 40 if tier == "quick" else 600):
         yield c
     for c in maximal_cases():
@@ -2715,6 +2968,8 @@ def gen_cases(rng, tier):
     for c in error_grid(rng, 60 if tier == "quick" else 1500):
         yield c
     for c in lex_cases(rng, 30 if tier == "quick" else 400):
+        yield c
+    for c in dns_cases(rng, 150 if tier == "quick" else 3000):
         yield c
     for c in order_cases(rng, 8 if tier == "quick" else 80):
         yield c
